@@ -70,6 +70,10 @@ type c16Op struct {
 	sizes []int                              // sizes of the list arguments (base element counts)
 	dedup bool                               // result documented as de-duplicated
 	call  func(idx [][]int) (c16Res, string) // returns result and "" or a description of a modified input
+	// between, if set, is the same operation on OTHER arguments (e.g. the same zooms and radius elsewhere on the globe);
+	// it runs between the first and the second identical call: "the same arguments give the same set" must not depend
+	// on what was asked in between
+	between func()
 }
 
 func identity(n int) []int {
@@ -130,6 +134,11 @@ func runC16(c *core.Case) {
 		c.NonTrivial()
 	}
 	orders := map[string]bool{first.order: true}
+	if op.between != nil {
+		op.between()
+		c.Call()
+		c.Tag("other-arguments-between-identical-calls")
+	}
 	for k := 2; k <= R; k++ {
 		res, ok := run(fmt.Sprintf("call %d", k), base)
 		if !ok {
@@ -241,6 +250,15 @@ func c16MakeOp(c *core.Case) *c16Op {
 			case 0:
 				if !square {
 					ids = append(ids, descendant(r, base, clampI(base.H+r.Range(0, 2), hlo, hhi), clampI(base.V+r.Range(0, 2), vlo, vhi)))
+					continue
+				}
+				if d := r.Range(1, 2); base.H+d <= hhi && base.H+d <= 35 { // nested single-zoom IDs: a child (or grandchild) of the base
+					ch := descendant(r, base, base.H+d, base.V+d)
+					ids = append(ids, ch)
+					if r.Bool() { // child listed before its parent
+						ids[0], ids[len(ids)-1] = ids[len(ids)-1], ids[0]
+						base = ids[0]
+					}
 					continue
 				}
 				fallthrough
@@ -377,7 +395,22 @@ func c16MakeOp(c *core.Case) *c16Op {
 		c.KF(pa.lon, pa.lat, pa.alt, pb.lon, pb.lat, pb.alt, rad)
 		c.KI(h, v)
 		note("start=(%.17g,%.17g,%.17g) end=(%.17g,%.17g,%.17g) radius=%v hZoom=%d vZoom=%d skip=%v", pa.lon, pa.lat, pa.alt, pb.lon, pb.lat, pb.alt, rad, h, v, skip)
-		return &c16Op{name: fmt.Sprintf("GetExtendedSpatialIdsWithinRadiusOfLine(skip=%v)", skip), sizes: nil, dedup: true, call: func([][]int) (c16Res, string) {
+		// the same request (zooms, radius, flag) at another latitude, where the clearance fit needs other layer counts
+		olat := pa.lat + []float64{40, -40, 60, -60, 25}[r.Intn(5)]
+		if olat > 80 || olat < -80 {
+			olat = -pa.lat / 2
+		}
+		oa, _ := object.NewPoint(pa.lon, olat, pa.alt)
+		ob, _ := object.NewPoint(pa.lon+(pb.lon-pa.lon)/2, olat, pb.alt)
+		orad := rad
+		if wo := wEq * math.Cos((math.Abs(olat)+1)*math.Pi/180); orad > 2.5*wo {
+			oa = nil // the radius would be many voxel widths there: skip the interleaved call
+		}
+		var between func()
+		if oa != nil && ob != nil && h > 4 {
+			between = func() { transform.GetExtendedSpatialIdsWithinRadiusOfLine(oa, ob, orad, h, v, skip) }
+		}
+		return &c16Op{name: fmt.Sprintf("GetExtendedSpatialIdsWithinRadiusOfLine(skip=%v)", skip), sizes: nil, dedup: true, between: between, call: func([][]int) (c16Res, string) {
 			a0, b0 := *a, *b
 			out, err := transform.GetExtendedSpatialIdsWithinRadiusOfLine(a, b, rad, h, v, skip)
 			res := canonList(out)
